@@ -57,6 +57,76 @@ def elem_len(d: bytes) -> Any:
     return len(d)
 
 
+def sym_eq(a: Any, b: Any) -> Any:
+    """a == b for offsets that are integers or linear solver terms: decided by term simplification where possible
+    (offsets after a blob are `constant + blob length`; their difference simplifies to a number), without a solver call."""
+    import sys
+
+    if 'crosshair.core' not in sys.modules:
+        return a == b
+
+    def go() -> Any:
+        import z3
+
+        av, bv = getattr(a, 'var', None), getattr(b, 'var', None)
+        if av is None and bv is None:
+            return bool(a == b)
+        d = z3.simplify((av if av is not None else z3.IntVal(int(a))) - (bv if bv is not None else z3.IntVal(int(b))))
+        if z3.is_int_value(d):
+            return d.as_long() == 0
+        return None
+
+    r = _untraced(go)
+    return (a == b) if r is None else r
+
+
+def _linear(x: Any) -> Optional[Tuple[int, Dict[str, int]]]:
+    """(constant, {variable name: coefficient}) of an integer or a linear solver term; None if it is not linear.  Untraced use only."""
+    import z3
+
+    v = getattr(x, 'var', None)
+    if v is None:
+        return (int(x), {}) if isinstance(x, int) else None
+
+    def walk(e: Any, mult: int, acc: List[Any]) -> bool:
+        if z3.is_int_value(e):
+            acc[0] += mult * e.as_long()
+            return True
+        if z3.is_const(e) and e.decl().kind() == z3.Z3_OP_UNINTERPRETED:
+            acc[1][str(e)] = acc[1].get(str(e), 0) + mult
+            return True
+        if z3.is_add(e):
+            return all(walk(c, mult, acc) for c in e.children())
+        if z3.is_sub(e):
+            ch = e.children()
+            return walk(ch[0], mult, acc) and all(walk(c, -mult, acc) for c in ch[1:])
+        if z3.is_mul(e) and len(e.children()) == 2 and z3.is_int_value(e.children()[0]):
+            return walk(e.children()[1], mult * e.children()[0].as_long(), acc)
+        return False
+
+    acc: List[Any] = [0, {}]
+    return (acc[0], {k: c for k, c in acc[1].items() if c != 0}) if walk(z3.simplify(v), 1, acc) else None
+
+
+def _cmp_linear(a: Optional[Tuple[int, Dict[str, int]]], b: Optional[Tuple[int, Dict[str, int]]]) -> Optional[bool]:
+    """Equality of two linear forms over variables that are all >= 0 (blob lengths): True / False when it holds for every
+    value, None when it depends on the values."""
+    if a is None or b is None:
+        return None
+    k = a[0] - b[0]
+    co = dict(a[1])
+    for v, c in b[1].items():
+        co[v] = co.get(v, 0) - c
+    co = {v: c for v, c in co.items() if c != 0}
+    if not co:
+        return k == 0
+    if all(c > 0 for c in co.values()) and k > 0:
+        return False
+    if all(c < 0 for c in co.values()) and k < 0:
+        return False
+    return None
+
+
 class Reader:
     """Reads one datagram given as the element list the encoder produced."""
 
@@ -75,9 +145,30 @@ class Reader:
 
     def index_at(self, offset: Any) -> Optional[int]:
         """Index of the (last) element starting at `offset` (zero-length elements share a start)."""
+        import sys
+
+        if 'crosshair.core' in sys.modules:
+            # decide the whole scan outside the tracer from the linear forms of the offsets (blob lengths are >= 0);
+            # only if some comparison depends on the values fall back to the comparison-by-comparison scan
+            def scan() -> Any:
+                if getattr(self, '_lin', None) is None:
+                    self._lin = [_linear(st) for st in self.starts]
+                lo = _linear(offset)
+                found = None
+                for i, ls in enumerate(self._lin):
+                    r = _cmp_linear(ls, lo)
+                    if r is None:
+                        return 'undecided'
+                    if r:
+                        found = i
+                return found
+
+            r = _untraced(scan)
+            if not (isinstance(r, str) and r == 'undecided'):
+                return r
         found = None
         for i, st in enumerate(self.starts):
-            if st == offset:
+            if sym_eq(st, offset):
                 found = i
         return found
 
@@ -140,8 +231,10 @@ class Reader:
                 nxt = None
                 for m in range(j + 4, len(self.data) + 1):
                     st = self.starts[m] if m < len(self.data) else self.length
-                    if st == end:
+                    if sym_eq(st, end):
                         nxt = m  # keep the last match: zero-length rdata shares its start with what follows
+                    elif nxt is not None:
+                        break  # starts only grow: past the run of elements sharing this start nothing can match
                 if nxt is None:
                     ent['malformed'] = True
                     out.append(ent)
